@@ -67,6 +67,54 @@ Def(p, f) ==
          [] p = "istypealiastype" -> B(f.isalias)
          [] OTHER -> "?"
 
+(********************* the two ordered dispatch tables *********************)
+(* unmarshals/api.py _HANDLERS and marshals/api.py _HANDLERS, transcribed  *)
+(* row by row: the first row whose test holds for the *unwrapped* type of  *)
+(* a node selects the routine class; no row = the structured routine.      *)
+(* Implementation-shaped (no listed property names a routine class): a     *)
+(* disagreement with the code is reported as drift.                        *)
+URows == << <<"isforwardref", "Delayed">>, <<"isunresolvable", "NoOp">>, <<"isnonetype", "NoneType">>, <<"isliteral", "Literal">>,
+            <<"isuniontype", "Union">>, <<"isenumtype", "Enum">>, <<"isdatetimetype", "DateTime">>, <<"isdatetype", "Date">>,
+            <<"istimetype", "Time">>, <<"istimedeltatype", "TimeDelta">>, <<"isuuidtype", "UUID">>, <<"ispatterntype", "Pattern">>,
+            <<"ispathtype", "Path">>, <<"isdecimaltype", "Decimal">>, <<"isfractiontype", "Fraction">>, <<"isnumbertype", "Number">>,
+            <<"isstringtype", "String">>, <<"isbytestype", "Bytes">>, <<"istypeddict", "StructuredType">>, <<"istypedtuple", "StructuredType">>,
+            <<"isnamedtuple", "StructuredType">>, <<"isfixedtupletype", "FixedTuple">>, <<"sub&ismappingtype", "SubscriptedMapping">>,
+            <<"sub&isiteratortype", "SubscriptedIterator">>, <<"sub&isiterabletype", "SubscriptedIterable">>, <<"ismappingtype", "Mapping">>,
+            <<"isiteratortype", "NoOp">>, <<"isiterabletype", "Iterable">> >>
+MRows == << <<"isforwardref", "Delayed">>, <<"isunresolvable", "NoOp">>, <<"isnonetype", "NoneType">>, <<"isliteral", "Literal">>,
+            <<"isuniontype", "Union">>, <<"isenumtype", "Enum">>, <<"isdatetimetype", "DateTime">>, <<"isdatetype", "Date">>,
+            <<"istimetype", "Time">>, <<"istimedeltatype", "TimeDelta">>, <<"isuuidtype", "UUID">>, <<"ispatterntype", "Pattern">>,
+            <<"ispathtype", "Path">>, <<"isdecimaltype", "Decimal">>, <<"isfractiontype", "Fraction">>, <<"isintegertype", "Integer">>,
+            <<"isfloattype", "Float">>, <<"isstringtype", "String">>, <<"isbytestype", "Bytes">>, <<"istypeddict", "StructuredType">>,
+            <<"istypedtuple", "StructuredType">>, <<"isnamedtuple", "StructuredType">>, <<"isfixedtupletype", "FixedTuple">>,
+            <<"sub&ismappingtype", "SubscriptedMapping">>, <<"sub&isiterabletype", "SubscriptedIterable">>, <<"ismappingtype", "Mapping">>,
+            <<"isiterabletype", "Iterable">> >>
+
+\* a test as the dispatch sees it: total ("T" / "F" / "?"), the issubclass family answers False for what is no class
+Test(p, f) ==
+  CASE p = "isunresolvable" -> B(f.unresolvable)
+    [] p = "istypedtuple"   -> B(f.plainclass /\ f.sub["tuple"] /\ f.hasannotations)
+    [] p \in {"sub&ismappingtype", "sub&isiteratortype", "sub&isiterabletype"} ->
+         (IF ~f.subscripted THEN "F"
+          ELSE LET q == (CASE p = "sub&ismappingtype" -> "ismappingtype" [] p = "sub&isiteratortype" -> "isiteratortype" [] OTHER -> "isiterabletype") IN
+               IF Def(q, f) = "?" THEN "F" ELSE Def(q, f))
+    [] OTHER -> (IF Def(p, f) # "?" THEN Def(p, f)
+                 ELSE IF DirectBase(p) # "" \/ SubBase(p) # "" THEN "F"        \* _safe_issubclass of a non-class
+                 ELSE "?")
+RECURSIVE FirstMatch(_, _, _)
+FirstMatch(rows, f, i) ==
+  IF i > Len(rows) THEN "StructuredType"
+  ELSE LET t == Test(rows[i][1], f) IN
+       IF t = "T" THEN rows[i][2] ELSE IF t = "?" THEN "?" ELSE FirstMatch(rows, f, i + 1)
+HandlerU(f) == FirstMatch(URows, f, 1)
+HandlerM(f) == FirstMatch(MRows, f, 1)
+\* the two directions of one type are handled by the two halves of one routine pair
+Paired(u, m) == \/ u = m
+                \/ u = "Number" /\ m \in {"Integer", "Float"}
+                \/ u = "SubscriptedIterator" /\ m = "SubscriptedIterable"
+                \/ u \in {"?"} \/ m \in {"?"}
+HandlersPaired(f) == Paired(HandlerU(f), HandlerM(f)) \/ (HandlerU(f) = "NoOp" /\ HandlerM(f) = "Iterable")   \* bare iterators
+
 \* the statement's side conditions on observed answers
 Verdict(p, f, ans, again) ==
   IF Def(p, f) = "?" THEN ""
